@@ -123,19 +123,24 @@ template <class S> static Outcome real_op_t(const Op& o) {
 }
 static Outcome real_op_c(const Op& o) {  // through the extern "C" interface
   Outcome R;
+  // string arguments travel in two fixed buffers that every call re-uses (what a C or Fortran driver with one name variable does): the
+  // library must read the text it is given now, never remember the address
+  static char B1[600], B2[600];
+  auto s1 = [&](const std::string& t) { memset(B1, 0, sizeof B1); strncpy(B1, t.c_str(), sizeof B1 - 1); return (const char*)B1; };
+  auto s2 = [&](const std::string& t) { memset(B2, 0, sizeof B2); strncpy(B2, t.c_str(), sizeof B2 - 1); return (const char*)B2; };
   auto body = [&] {
     switch (o.t) {
-      case INIT: R.ret = std::to_string(masa_init(o.h.c_str(), o.s.c_str())); break;
-      case SELECT: R.ret = std::to_string(masa_select_mms(o.h.c_str())); break;
-      case SET: masa_set_param(o.p.c_str(), (double)o.v); R.ret = ""; break;
-      case GET: R.ret = hexl((LD)masa_get_param(o.p.c_str())); break;
+      case INIT: R.ret = std::to_string(masa_init(s1(o.h), s2(o.s))); break;
+      case SELECT: R.ret = std::to_string(masa_select_mms(s1(o.h))); break;
+      case SET: masa_set_param(s1(o.p), (double)o.v); R.ret = ""; break;
+      case GET: R.ret = hexl((LD)masa_get_param(s1(o.p))); break;
       case PURGE: R.ret = std::to_string(masa_purge_default_param()); break;
       case INITPARAM: R.ret = std::to_string(masa_init_param()); break;
       case SANITY: R.ret = std::to_string(masa_sanity_check()); break;
       case DISPLAY: R.ret = std::to_string(masa_display_param()); break;
       case DISPLAYVEC: R.ret = std::to_string(masa_display_array()); break;
-      case SETVEC: { std::vector<double> v(o.n + 1); for (int i = 0; i < o.n; i++) v[i] = (double)vec_value(o.n, i); int n = o.n; if (o.rel) { v.assign(o.vals.size() + 1, 0.0); for (size_t i = 0; i < o.vals.size(); i++) v[i] = (double)o.vals[i]; n = o.vals.size(); } masa_set_array(o.p.c_str(), &n, v.data()); R.ret = ""; break; }
-      case GETVEC: { double arr[512]; for (double& x : arr) x = -777; int n = -5; int st = masa_get_array(o.p.c_str(), &n, arr); R.ret = std::to_string(st) + ":";
+      case SETVEC: { std::vector<double> v(o.n + 1); for (int i = 0; i < o.n; i++) v[i] = (double)vec_value(o.n, i); int n = o.n; if (o.rel) { v.assign(o.vals.size() + 1, 0.0); for (size_t i = 0; i < o.vals.size(); i++) v[i] = (double)o.vals[i]; n = o.vals.size(); } masa_set_array(s1(o.p), &n, v.data()); R.ret = ""; break; }
+      case GETVEC: { double arr[512]; for (double& x : arr) x = -777; int n = -5; int st = masa_get_array(s1(o.p), &n, arr); R.ret = std::to_string(st) + ":";
         if (st == 0) { for (int i = 0; i < n && i < 512; i++) R.ret += hexl((LD)arr[i]) + ","; if (n >= 0 && n < 512 && arr[n] != -777) R.ret += "OVERRUN"; } else R.ret += (arr[0] == -777) ? "untouched" : "touched"; break; }
       case EVAL: { ApiArgs A = args_tuple(o.tuple); double r; R.ret = c_eval(o.fn, o.sig, A, r) ? hexl((LD)r) : "noapi"; break; }
       case LIST: R.ret = std::to_string(masa_list_mms()); break;
